@@ -75,6 +75,23 @@ let () =
       else "PANIC"
     | _ -> "BADARGS")
 
+let chip_index = function
+  | "sx1261" | "sx1262" | "stm32wl" -> 0 | "sx1276" -> 1 | "sx1272" -> 2 | "lr1110" -> 3
+  | _ -> failwith "chip"
+
+let () =
+  register "ldro" (fun a ->
+    match a with
+    | chip :: sf :: bw :: rest ->
+      let freq = (match rest with f :: _ -> zi f | [] -> z_of_int 868100000) in
+      (match ldro_outcome (z_of_int (chip_index chip)) (zi sf) (zi bw) freq with
+       | None -> "ERR"
+       | Some (l, b) -> Printf.sprintf "%d %d" (int_of_z l) (int_of_z b))
+    | _ -> "BADARGS");
+  register "ldro_spec" (function
+    | [sf; bw] -> tok_of_bool (ldro_required (zi sf) (bw_hz (zi bw)))
+    | _ -> "BADARGS")
+
 let () =
   (try
     while true do
